@@ -77,9 +77,10 @@ FS_NAMES = [
     LONG_LOWER + "x",  # clipped: clashes with the previous one
     LONG_UPPER,
     LONG_UPPER[:-1] + "Z",  # differs only after the clip point
-    "a/b",
-    "a:b",  # same file name as a/b
-    "a*b",
+    "a_",  # differs from the file name of "A" only by case
+    "a/B",
+    "a:B",  # same file name as a/B
+    "a*B",  # third name of the clash class: the counter itself must be compared ignoring case
     "İ",  # LATIN CAPITAL LETTER I WITH DOT ABOVE: lower() is two code points
     "\U0001d49c",  # astral
     "a" * 246 + ".con",  # reserved part ending exactly at the clip boundary of ".glif"
@@ -88,7 +89,7 @@ FS_NAMES = [
 CTRL_NAMES = ["a\x00b", "a\x1fb", "\x7f", "a\tb\n"]
 
 # core alphabet for the deeper histories: one representative per interaction class
-CORE_NAMES = ["a", "A", "A_", "con", "a/b", "a:b", LONG_LOWER, LONG_LOWER + "x"]
+CORE_NAMES = ["a", "A", "a_", "con", "a/B", "a:B", "a*B", LONG_LOWER, LONG_LOWER + "x"]
 
 
 def boundary_names(prefix_len, suffix_len):
